@@ -60,6 +60,7 @@ func genC11(r *Rng, tier string, idx int) *Plan {
 	p.SKnobs["ext"] = Pick(r, []string{".json", ".yaml"})
 	nconn := r.Range(2, 4)
 	p.Knobs["conns"] = int64(nconn)
+	p.Dice = drawDice(r, 128)
 	names := []string{"ua", "ub", "uc"}
 	n := r.Range(6, 28)
 	if tier == "thorough" {
@@ -84,8 +85,11 @@ func genC11(r *Rng, tier string, idx int) *Plan {
 				}
 			}
 			p.Ops = append(p.Ops, Op{Kind: "setuser", Args: a})
-		case x < 32:
+		case x < 30:
 			p.Ops = append(p.Ops, Op{Kind: "deluser", Args: []string{"ACL", "DELUSER", Pick(r, append(names, "default"))}})
+		case x < 32:
+			// ACL DELUSER u racing a login as u on another connection (dice-scheduled at the ACL user-list lock)
+			p.Ops = append(p.Ops, Op{Kind: "race", C: c, S: u, Args: []string{"AUTH", u, Pick(r, c11Pws)}})
 		case x < 62:
 			p.Ops = append(p.Ops, Op{Kind: "auth", C: c, Args: []string{"AUTH", Pick(r, append(names, "nobody")), Pick(r, append(c11Pws, "wrong"))}})
 		case x < 68:
@@ -121,6 +125,7 @@ func runC11(t *testing.T, p *Plan) *Outcome {
 		s := NewSim()
 		s.install()
 		defer s.uninstall()
+		dice := p.NewDice()
 		cfg := BaseConfig
 		cfg.RequirePass = true
 		cfg.Password = "adminpw"
@@ -248,6 +253,67 @@ func runC11(t *testing.T, p *Plan) *Outcome {
 						conns[c] = s.NewTCPClient(inst, fmt.Sprintf("g%dc%d.%d", gen, c, i))
 						who[c] = ""
 					}
+				}
+			case "race":
+				if len(op.Args) != 3 || op.S == "" || op.S == "default" {
+					continue
+				}
+				c := op.C % nconn
+				name := op.S
+				if who[c] == name {
+					continue
+				}
+				couldLogin := users[name].accepts(op.Args[2])
+				var ares Result
+				cdone, adone := false, false
+				s.ParkLocks = map[string]bool{"acl.users": true, "conninfo": true}
+				admin.Start([]string{"ACL", "DELUSER", name}, func(r Result) { adone = true })
+				conns[c].Start(op.Args, func(r Result) { ares, cdone = r, true })
+				for st := 0; st < 4000 && !(cdone && adone); st++ {
+					parked := s.ParkedTasks()
+					if len(parked) == 0 {
+						s.Settle()
+						if len(s.ParkedTasks()) == 0 {
+							break
+						}
+						continue
+					}
+					tk := parked[dice.Next(len(parked))]
+					s.noteChoice(len(parked), tk.Site)
+					s.Release(tk)
+				}
+				s.DrainAll(2000)
+				s.ParkLocks = nil
+				classes = append(classes, fmt.Sprintf("race:deluser||auth:%v", couldLogin))
+				if conns[c].SrvPanic != "" || admin.SrvPanic != "" {
+					fail("panic/race", conns[c].SrvPanic+admin.SrvPanic)
+					break
+				}
+				if !adone {
+					fail("race/deluser-never-completed", fmt.Sprintf("step %d: ACL DELUSER %s racing %q never returned", i, name, op.Args))
+					break
+				}
+				delete(users, name)
+				for cc := range who {
+					if who[cc] == name {
+						conns[cc] = s.NewTCPClient(inst, fmt.Sprintf("g%dc%d.%d", gen, cc, i))
+						who[cc] = ""
+					}
+				}
+				accepted := cdone && !ares.IsError() && !ares.Closed && !ares.NoReply
+				if accepted && !couldLogin {
+					fail("auth/accepted", fmt.Sprintf("step %d %q racing ACL DELUSER %s was accepted; stored credentials never matched", i, op.Args, name))
+					break
+				}
+				// whatever the order: the user is gone now, nobody acts as it
+				w := conns[c].DoSync("ACL", "WHOAMI")
+				if !w.IsError() && !w.Closed && !w.NoReply && w.Reply.Text() == name {
+					fail("deluser/session-alive-after-race", fmt.Sprintf("step %d: %q raced ACL DELUSER %s (login answered %s); after both completed the connection still is %q", i, op.Args, name, trunc(ares.String(), 40), name))
+					break
+				}
+				if w.Closed || w.NoReply || accepted {
+					conns[c] = s.NewTCPClient(inst, fmt.Sprintf("g%dc%d.%d", gen, c, i))
+					who[c] = ""
 				}
 			case "newconn":
 				c := op.C % nconn
